@@ -237,7 +237,14 @@ claim("C24",
 
 claim("C23",
       "Four of the statement's conjuncts are decided, for every step set: (0) the three graph checks of "
-      "validate_graph GIVEN the step graph (build_step_graph and its depth-first searches are trusted): the "
+      "validate_graph GIVEN the step graph, and the graph itself: `_dfs` returns a set that contains the seeds, is "
+      "closed under the adjacency lists and has only members derivable from the two closure axioms of reachability "
+      "(exactly the reachable set, by the induction principle proved in lemmas/lean/Reach.lean); build_step_graph "
+      "(a second contract on the real function) records every step as a step name, an edge from each accepted event "
+      "type to its step and from each step to each of its return types (None excepted), seeds the forward search with "
+      "the start event, every HumanResponseEvent (sub)class of the graph and every catch_error step, reverses every "
+      "edge for the backward search and seeds it with every StopEvent / InputRequiredEvent (sub)class, so that the "
+      "forward set is closed under the graph's edges and the reverse set closed against them; for the checks: the "
       "reachability error lists exactly the steps that are not forward-reachable and not opted out, the dead-end error "
       "exactly the event-producing steps that cannot reach an output event and are not opted out, a terminal-event error "
       "is reported iff some event type has no consuming step and is not an output event; each check is silent exactly "
@@ -250,9 +257,11 @@ claim("C23",
       "3cd0ed0: the flag ignored subclasses); (3) @catch_error consistency - validate_catch_error_handlers returns no "
       "error iff at most one wildcard exists and every scoped target is a known non-handler step claimed exactly once, "
       "and _collect_catch_error_handlers raises or returns tables that agree with it.",
-      "NOT covered: exactly-one StartEvent / StopEvent type (_ensure_start_event_class / _ensure_stop_event_class) and "
-      "the graph construction itself: build_step_graph / _dfs are trusted (that the two sets ARE the reachable sets "
-      "needs a transitive-closure argument that was not built); the order of names inside an error is left open "
+      "NOT covered: exactly-one StartEvent / StopEvent type (_ensure_start_event_class / _ensure_stop_event_class); "
+      "that the graph has NO OTHER edges / seeds than the recorded ones (the contract of build_step_graph says what is "
+      "in the graph, not what is not), so 'not reachable' is relative to the adjacency the function built; the plain "
+      "contract that names build_step_graph's result for validate_graph (a function of its arguments) stays assumed; "
+      "the Lean lemma is re-checked by the thorough tier only; the order of names inside an error is left open "
       "(sorted() is modelled as a permutation). This check must not be read as a proof of all of C23.",
       category="other")
 
